@@ -351,7 +351,7 @@ pub static C28: CheckDef = CheckDef {
     run: run_c28,
     quick_runs: 300_000,
     thorough_runs: 20_000_000,
-    rule: "case = real DataLoader over a simulated loader, spawner and timer; cache NoCache / HashMapCache / LruCache(cap >= key universe), max_batch_size 1-4, delay 0/1/50us; 1-5 concurrent client tasks each running a drawn script of load_one / load_many (0-4 keys of 4, duplicates allowed, two key types) / feed / clear / clear_one / enable toggles; 'faults' adds failing loader calls, omitted keys, late timers and cancellation of a client at a drawn time. Schedule = caller progress x spawned-task order x timer firing x loader completion. Oracle over the recorded history (global event sequence numbers): every loader batch is duplicate-free and smaller than max_batch_size + largest single request; every returned (key,value) is attributable to a loader call for that key that had ended, or a feed that had been made, by the time the load returned (with NoCache: to a call inside the load's interval); a key is absent only if a loader call in the interval omitted it; an error is the error of a loader call inside the interval that contained the request's keys; at quiescence every non-cancelled load has returned. Non-trivial = >=2 loads overlapped in time; distinct = distinct event-order hashes.",
+    rule: "case = real DataLoader over a simulated loader, spawner and timer; cache NoCache / HashMapCache / LruCache(cap >= key universe), max_batch_size 1-4, delay 0/1/50us; 1-5 concurrent client tasks each running a drawn script of load_one / load_many (0-4 keys of 4, duplicates allowed, two key types) / feed / clear / clear_one / enable toggles; 'faults' adds failing loader calls, omitted keys, late timers and cancellation of a client at a drawn time. Schedule = caller progress x spawned-task order x timer firing x loader completion. Oracle over the recorded history (global event sequence numbers): every loader batch is duplicate-free and smaller than max_batch_size + largest single request; every returned (key,value) is attributable to a loader call for that key that had ended, or a feed that had been made, by the time the load returned (with NoCache: to a call that ended inside the load's interval); a key is absent only if a loader call in the interval omitted it; an error is the error of a loader call inside the interval that contained the request's keys; at quiescence every non-cancelled load has returned. Non-trivial = >=2 loads overlapped in time; distinct = distinct event-order hashes.",
     real: &["async_graphql::dataloader::DataLoader (load_many / do_load / delayed fetch task / immediate load task / caches)", "scc HashMap", "futures-channel oneshot"],
     stub: &["Loader (simulated, gated, faulty)", "Spawn (simulator tasks)", "Timer (simulated clock, may fire late)", "client tasks"],
     assumptions: &["spawned tasks and timers run (the property says so): spawn never fails and every timer eventually fires", "thread-level pre-emption inside the entry locks is not explored (no lock is held across an await)"],
@@ -520,7 +520,9 @@ fn check_c28(cfg: &Cfg, r: &RunOut, largest: &BTreeMap<u8, usize>, desc: &str, o
                     let from_call = r.calls.iter().any(|c| {
                         c.kt == *kt
                             && c.end.map(|e| e < *ret_seq).unwrap_or(false)
-                            && (cache_possible || c.start > h.invoke)
+                            // without a cache the call must at least have ended inside the load's interval
+                            // (joining a call that was already in flight would be legitimate de-duplication)
+                            && (cache_possible || c.end.map(|e| e > h.invoke).unwrap_or(false))
                             && matches!(&c.outcome, CallOutcome::Ok { returned, .. } if returned.contains(&(*k, *v)))
                     });
                     let from_feed = cache_possible && feeds.iter().any(|(inv, fkt, fk, fv)| fkt == kt && fk == k && fv == v && *inv < *ret_seq);
@@ -532,7 +534,7 @@ fn check_c28(cfg: &Cfg, r: &RunOut, largest: &BTreeMap<u8, usize>, desc: &str, o
                 for k in &want {
                     if !got.contains_key(k) {
                         // absent: only if a loader call overlapping the interval omitted it
-                        let omitted = r.calls.iter().any(|c| c.kt == *kt && c.start > h.invoke && c.end.map(|e| e < *ret_seq).unwrap_or(false) && matches!(&c.outcome, CallOutcome::Ok { omitted, .. } if omitted.contains(k)));
+                        let omitted = r.calls.iter().any(|c| c.kt == *kt && c.end.map(|e| e > h.invoke && e < *ret_seq).unwrap_or(false) && matches!(&c.outcome, CallOutcome::Ok { omitted, .. } if omitted.contains(k)));
                         if !omitted {
                             out.viol("C28/missing-key", format!("load {:?} did not return key {k} although no loader call in its interval omitted it; calls {:?}; {desc}", h, r.calls));
                             return;
@@ -541,7 +543,7 @@ fn check_c28(cfg: &Cfg, r: &RunOut, largest: &BTreeMap<u8, usize>, desc: &str, o
                 }
             }
             Ret::Load(Err(e)) => {
-                let ok = r.calls.iter().any(|c| c.kt == *kt && c.no == *e && c.start > h.invoke && c.end.map(|x| x < *ret_seq).unwrap_or(false) && matches!(c.outcome, CallOutcome::Err(_)) && c.keys.iter().any(|k| want.contains(k)));
+                let ok = r.calls.iter().any(|c| c.kt == *kt && c.no == *e && c.end.map(|x| x > h.invoke && x < *ret_seq).unwrap_or(false) && matches!(c.outcome, CallOutcome::Err(_)) && c.keys.iter().any(|k| want.contains(k)));
                 if !ok {
                     out.viol("C28/foreign-error", format!("load {:?} failed with error {e}, which is not the error of a loader call it joined; calls {:?}; {desc}", h, r.calls));
                     return;
